@@ -69,7 +69,9 @@ def universe(tier):
         out.append("{%s: %s}" % (k, v))
     out += ["{}", '{"a": 1, "b": "x"}', '{"a": 1, "b": 2}', '{"a": 1, "c": 2}',
             '(1, "a", 1.5)', "(1, 2, 3)", '("a", "b", "c")', '(1, "a", "b", 1.5)', "[[1]]", '[(1, "a")]', "([1],)", '{"a": [1]}',
-            "(E.X,)", "[E.X, E.Y]", "(A(),)", "[B()]", "(IE.P,)", "[FS(1.5)]", "(IS(2), 1)"]
+            "(E.X,)", "[E.X, E.Y]", "(A(),)", "[B()]", "(IE.P,)", "[FS(1.5)]", "(IS(2), 1)",
+            # containers whose members are equal (and hash equal) but of different types: (True,) == (1,), [1.0] == [1]
+            "[(True,), (1,)]", "[(1,), (True,)]", "((1.5,), (1,), (True,))", '[{"a": 1}, {"a": True}]']
     if tier == "thorough":
         for t in itertools.product(CORE, repeat=3):
             out.append(_tuple_src(t))
